@@ -344,10 +344,10 @@ theorem accepted_lookups_sound {R : Registry} (wf : WF R) (hok : checkDependenci
         ∀ N ≥ 1, ∀ complete execution of `run_suites` with N workers,
           (every scheduled test ends `passed` or `disabled`) ∧ outcome = returned true
 
-  It needs the scheduler M1, the task graph M2 and the run semantics M5 (C01–C03), and it is REFUTED on
-  the unchanged tree by D1 (accepted project with a leaf suite without tests, N ≥ 2: `LookupError` in
-  `on_suite_end`; witness `D1_WITNESS` in the corpus of stream `C14.run`, open known finding
-  `C14/run/D1-empty-suite-with-threads/LookupError`; the Lean refutation lives with the M2 model).
+  It needs the scheduler M1, the task graph M2 and the run semantics M5 (C01–C03).  On the snapshot
+  2db5dfe it was REFUTED by D1 (accepted project with a leaf suite without tests, N ≥ 2: `LookupError`
+  in `on_suite_end`), repaired in /repo by 273e673; the witness `D1_WITNESS` stays in the corpus of
+  stream `C14.run` and must now run all-passed.
   What IS proved here is the fixture-machinery half, for every accepted project, every suite that gets
   initialised and every test that really runs: `accepted_project_run_sound` below (the `_partial` form:
   "no structural failure can come from `ScheduledFixtures`").  The rest of the sentence is tied to the
